@@ -130,3 +130,23 @@ def regular_dangling_rows(rng, k, d):
             if rows[v][j] < 0 and rng.random() < 0.4:
                 rows[v][j] = lat[j]          # target contains a letter outside the alphabet: it is a dead vertex
     return rows
+
+
+def cycle_rows(rng, k):
+    """A single one-way cycle: the k-mers of a random periodic string, each with exactly one out-arc."""
+    for _ in range(200):
+        period = rng.randint(max(3, k + 1), 14)
+        text = [rng.randrange(4) for _ in range(period)]
+        kmers = []
+        for i in range(period):
+            v = 0
+            for j in range(k):
+                v = v * 4 + text[(i + j) % period]
+            kmers.append(v)
+        if len(set(kmers)) == period:
+            rows = [[-1, -1, -1, -1] for _ in range(4 ** k)]
+            for i in range(period):
+                nxt = text[(i + k) % period]
+                rows[kmers[i]][nxt] = kmers[(i + 1) % period]
+            return rows
+    return regular_closed_rows(rng, k, 1)
